@@ -159,9 +159,9 @@ def stage_sim(ctx, name, *, num, depth, bases=(0,), consts=None, invariants=None
               track_obs=False):
     """role B on a configuration too large to enumerate: TLC -simulate prints random behaviours of
     the specification, each is replayed on real objects"""
-    consts = dict(consts or configs.get(name), TrackObs=bool(track_obs))
-    if not track_obs:   # derived fields are not in a state dump: compare the variables only
-        consts["EmitKeys"] = {k for k in consts["EmitKeys"] if k in replay.BASE_KEYS and k != "shadowed"}
+    consts = dict(consts or configs.get(name))
+    # derived fields are not in a state dump: compare the variables only
+    consts["EmitKeys"] = {k for k in consts["EmitKeys"] if k in replay.BASE_KEYS and k != "shadowed"}
     import gzip
     import os
     from . import core
@@ -249,23 +249,29 @@ def judge_recorded(ctx, name, consts, rec):
     return bad
 
 
-def stage_graph_lookups(ctx, name, *, bases=(0,), per_step=8, result=None, consts=None):
+def stage_graph_lookups(ctx, name, *, bases=(0,), per_step=8, result=None, consts=None, p_lookup=0.6):
+    """lookups are issued after a step only with probability p_lookup, so that edits accumulate
+    between lookups (the indexes are maintained lazily)"""
+    import random
     from . import judge
     consts = consts or configs.get(name)
     for base in bases:
         rec = judge.Recorder(consts, seed=ctx.seed + 17, per_step=per_step)
+        rng = random.Random(ctx.seed + 41)
         stage_graph(ctx, name, bases=(base,), consts=consts, result=result,
-                    on_step=lambda env, op, sid: rec.record(env, state_key=sid))
+                    on_step=lambda env, op, sid: rec.record(env, state_key=sid) if rng.random() < p_lookup else None)
         judge_recorded(ctx, name, consts, rec)
 
 
-def stage_sim_lookups(ctx, name, *, num, depth, bases=(0,), per_step=8, consts=None):
+def stage_sim_lookups(ctx, name, *, num, depth, bases=(0,), per_step=8, consts=None, p_lookup=0.3):
+    import random
     from . import judge
     consts = consts or configs.get(name)
     for base in bases:
         rec = judge.Recorder(consts, seed=ctx.seed + 23, per_step=per_step)
+        rng = random.Random(ctx.seed + 43)
         stage_sim(ctx, name, num=num, depth=depth, bases=(base,), consts=consts,
-                  on_step=lambda env, op, r: rec.record(env))
+                  on_step=lambda env, op, r: rec.record(env) if rng.random() < p_lookup else None)
         judge_recorded(ctx, name, consts, rec)
 
 
